@@ -106,11 +106,11 @@ def _check_on(S, case, rebuild=True):
         return [w for w in ref_neighbors(G, x, d, u, f) if mem is None or w in mem]
 
     start = S.vs[s]
-    with trav.neighbor_budget(4 * n + 8):
+    with trav.neighbor_budget(4 * (n + 2) * (n + 2) + 32):
         bft = S.idx(B.bft(S.uni, start, **S.kw()))
-    with trav.neighbor_budget(4 * n + 8):
+    with trav.neighbor_budget(4 * (n + 2) * (n + 2) + 32):
         dfr = S.idx(D.dft_recursive(S.uni, start, **S.kw()))
-    with trav.neighbor_budget(4 * n + 8):
+    with trav.neighbor_budget(4 * (n + 2) * (n + 2) + 32):
         dfi = S.idx(D.dft_iterative(S.uni, start, **S.kw()))
 
     exp_b = ref_bfs(G, s, mem, d, u, f)
